@@ -9,11 +9,11 @@ EXTENDS Naturals, Sequences, FiniteSets, TLC, Json
 CONSTANTS StrictInt    \* TRUE: Int/ConstantInt validators accept exactly `int` (as coded after the fix)
 
 ValueClass == {"bool", "int_u8", "int_u16", "int_big", "int_neg", "float_integral", "float_fractional",
-               "float_inf", "float_nan", "str_numeric", "str_short", "str_long", "bytes_numeric",
+               "float_inf", "float_nan", "str_numeric", "str_short", "str_long", "str_layout", "bytes_numeric",
                "bytes_short", "bytes_long", "none", "list", "dict", "other"}
 IsInt(v)   == v \in {"int_u8", "int_u16", "int_big", "int_neg"}
 IsFloat(v) == v \in {"float_integral", "float_fractional", "float_inf", "float_nan"}
-IsStr(v)   == v \in {"str_numeric", "str_short", "str_long"}
+IsStr(v)   == v \in {"str_numeric", "str_short", "str_long", "str_layout"}
 IsBytes(v) == v \in {"bytes_numeric", "bytes_short", "bytes_long"}
 
 \* subclasses of ConstantOpcode in priority order (ties in definition order)
@@ -34,7 +34,7 @@ Validate(c, v) ==
               ELSE IF v \in {"none", "list", "dict", "other"} THEN "raise"    \* TypeError
               ELSE "no"
     [] c = "BINFLOAT" -> IF IsFloat(v) THEN "ok" ELSE "no"
-    [] c = "SHORT_BINUNICODE" -> IF v \in {"str_numeric", "str_short"} THEN "ok" ELSE "no"
+    [] c = "SHORT_BINUNICODE" -> IF v \in {"str_numeric", "str_short", "str_layout"} THEN "ok" ELSE "no"
     [] c \in {"BINUNICODE", "BINUNICODE8", "UNICODE", "STRING", "SHORT_BINSTRING", "BINSTRING"} -> IF IsStr(v) THEN "ok" ELSE "no"
     [] c = "SHORT_BINBYTES" -> IF v \in {"bytes_numeric", "bytes_short"} THEN "ok" ELSE "no"
     [] c \in {"BINBYTES", "BINBYTES8"} -> IF IsBytes(v) THEN "ok" ELSE "no"
